@@ -187,35 +187,40 @@ Section Plan.
     Definition pick_node (site : nat) (nodes : list N) (pred : N -> bool) : option N :=
       find pred (rotate (cho site (List.length nodes)) nodes).
 
-    Definition pick_nodes_part : option target :=
-      let first (l : list (option N)) := fold_right (fun o acc => match o with Some n => Some n | None => acc end) None l in
-      option_map (fun n => (n, None))
-        (first
-          [ match crit_rack with
-            | Some c => pick_node 24 local_nodes (fun n => alive n && crit_ok c n)
-            | None => None
-            end;
-            pick_node 25 local_nodes alive;
-            if failover_possible then pick_node 26 all_nodes alive else None;
-            pick_node 27 local_nodes enabled;
-            if failover_possible then pick_node 28 all_nodes enabled else None ]).
+    (* the token-unaware part of pick(): the first of five attempts that finds a node *)
+    Definition node_steps : list (option N) :=
+      [ match crit_rack with
+        | Some c => pick_node 24 local_nodes (fun n => alive n && crit_ok c n)
+        | None => None
+        end;
+        pick_node 25 local_nodes alive;
+        if failover_possible then pick_node 26 all_nodes alive else None;
+        pick_node 27 local_nodes enabled;
+        if failover_possible then pick_node 28 all_nodes enabled else None ].
+    Fixpoint first_node (l : list (option N)) : option target :=
+      match l with
+      | [] => None
+      | Some n :: _ => Some (n, None)
+      | None :: r => first_node r
+      end.
+    Definition pick_nodes_part : option target := first_node node_steps.
+
+    (* the token-aware part: up to three pick_replica attempts; each `if let Some(picked)` returns *)
+    Definition replica_steps (t : Z) (s : strategy) : list (option picked) :=
+      [ match crit_rack with Some c => pick_replica 21 t s c | None => None end;
+        match crit_local with Some c => pick_replica 22 t s c | None => None end;
+        if remote_allowed then pick_replica 23 t s CAny else None ].
+    Fixpoint first_picked (l : list (option picked)) (k : option target) : option target :=
+      match l with
+      | [] => k
+      | Some (Computed n) :: _ => Some (n, Some (shf n))
+      | Some ToBeComputedInFallback :: _ => None          (* left to fallback() *)
+      | None :: r => first_picked r k
+      end.
 
     Definition pick : option target :=
       match token_strategy with
-      | Some (t, s) =>
-          let try (site : nat) (oc : option crit) (k : unit -> option target) : option target :=
-            match oc with
-            | None => k tt
-            | Some c => match pick_replica site t s c with
-                        | Some (Computed n) => Some (n, Some (shf n))
-                        | Some ToBeComputedInFallback => None
-                        | None => k tt
-                        end
-            end in
-          try 21%nat crit_rack (fun _ =>
-          try 22%nat crit_local (fun _ =>
-          try 23%nat (if remote_allowed then Some CAny else None) (fun _ =>
-          pick_nodes_part)))
+      | Some (t, s) => first_picked (replica_steps t s) pick_nodes_part
       | None => pick_nodes_part
       end.
 
